@@ -214,6 +214,23 @@ def exercise(ctx):
                         raise Fail("fetch-metadata", f"{path_} ({kind}): request {i} metadata {cur} differs from the first request's {base}", detail)
                 if last_attr != "":
                     raise Fail("pager-attrs", f"{path_} ({kind}): pager.next_page_token is {last_attr!r} after exhausting the pager; most recent page has ''", detail)
+                if len(pages) >= 2:
+                    # a history of two calls: the SAME request object is handed in again and has to yield every item again
+                    try:
+                        if kind == "sync":
+                            got2 = [canon_item(item_fd, x) for x in meth(**kw)]
+                        else:
+                            async def go2():
+                                return [canon_item(item_fd, x) async for x in await meth(**kw)]
+                            got2 = rig.run(go2())
+                    except Exception as e:
+                        raise Fail("iteration-raised", f"{path_} ({kind}), second call with the same request object: {type(e).__name__}: {str(e)[:300]}", detail)
+                    calls2 = [c for c in rig.grpc.take() if c["method"] == path_]
+                    ctx.count("second_calls_same_request")
+                    if list(map(repr, got2)) != list(map(repr, got)) or len(calls2) != len(pages):
+                        raise Fail("second-call-items", f"{path_} ({kind}): a second call with the same request object yielded {len(got2)} items in "
+                                   f"{len(calls2)} requests, the first one {len(got)} items in {len(calls)} (the caller's request must not carry state over)",
+                                   dict(detail, first_tokens=[dyn_in.FromString(c["requests"][0]).page_token for c in calls2]))
 
             forall(ctx, scenario(), one, n, label=m["name"], shrink=False)
             ctx.count("methods_exercised")
